@@ -230,6 +230,8 @@ def probation_lifecycle(r, F):
         for of, n in sl.fields:
             if of == BS:
                 stored[n] = b.term.args[1].const_val()
+    uncond = all(rs.must_pass(0, [b.idx]) for b in rs.calls_to(r"atomic::Atomic::<\w+>::store$"))
+    r.require(uncond, rs, "reset is unconditional", "every store of BlockStatistics::reset runs on every path", "BlockStatistics::reset clears some statistic only on some paths", ln=rs.lo)
     for f in fields:
         r.require(f in stored and stored[f] == 0, rs, "reset clears BlockStatistics." + f, "the per-generation statistic `%s` is zeroed when the block is recycled" % f,
                   "BlockStatistics::reset does not clear `%s`: a recycled block keeps the previous generation's value%s" % (
